@@ -61,9 +61,9 @@ def roundtrips(text: str) -> bool:
     return Decimal(f"{float(text):.11f}") == Decimal(text)
 
 
-def write_ini(path: str, assets: List[str], exchanges: List[str], holders: List[str], layout: Optional[Dict[str, Dict[str, int]]] = None, schedule: Optional[Dict[str, str]] = None, extra: str = "") -> None:
+def write_ini(path: str, assets: List[str], exchanges: List[str], holders: List[str], layout: Optional[Dict[str, Dict[str, int]]] = None, schedule: Optional[Dict[str, str]] = None, extra: str = "", general_extra: Optional[List[str]] = None) -> None:
     layout = layout or default_layout()
-    lines = ["[general]", f"assets = {', '.join(assets)}", f"exchanges = {', '.join(exchanges)}", f"holders = {', '.join(holders)}", ""]
+    lines = ["[general]", f"assets = {', '.join(assets)}", f"exchanges = {', '.join(exchanges)}", f"holders = {', '.join(holders)}"] + list(general_extra or []) + [""]
     for table in ("in", "out", "intra"):
         lines.append(f"[{table}_header]")
         for field, col in layout[table].items():
